@@ -38,9 +38,9 @@ func (c *CCommentState) NextToken(
 		str := c.GetMultiLineComment(scanner)
 		return tokenizers.NewToken(tokenizers.Comment, "/*"+str, line, column)
 	} else {
-		if !utilities.CharValidator.IsEof(secondSymbol) {
-			scanner.Unread()
-		}
+		// Put back both symbols; a consumed end-of-input slot must be put back too,
+		// otherwise the second Unread only leaves that slot and the slash is lost.
+		scanner.Unread()
 		if !utilities.CharValidator.IsEof(firstSymbol) {
 			scanner.Unread()
 		}
